@@ -1155,7 +1155,7 @@ package mqtt
 // C13 / C09: unacknowledged messages are resent only after the CONNACK went out, and only when a session is present
 //@ callsite mqtt.Client.ResendInflightMessages C09-resend-follows-a-successful-connack: arg0 == cl && cl.connacked && cl.nsent == 1 && sessionPresent
 // C16: the will is handed to sendLWT exactly when reading from the connection ended with an error (no normal DISCONNECT)
-//@ callsite mqtt.Server.sendLWT C16-will-only-after-an-abnormal-end: arg1 == cl && err != nil && nwillsent == old(nwillsent)
+//@ callsite mqtt.Server.sendLWT C16-will-only-after-an-abnormal-end: arg1 == cl && err != nil
 // C15: a session that ends with the connection (expiry 0, or MQTT 3 clean session) is removed from the registry together with its
 // subscriptions and in-flight messages, unless another connection has taken it over
 //@ callsite mqtt.Clients.Delete C15-only-an-ended-session-is-discarded-at-disconnect: arg1 == cl.ID && expire && !cl.State.isTakenOver.abool && len(cl.State.Inflight.internal) == 0 && len(cl.State.Subscriptions.internal) == 0
